@@ -44,7 +44,10 @@ LEVEL_TEXT = ("Machine-checked for the tree as it is now (all repairs found by t
               "classification regenerated from XPath::getTargetData and the routing regenerated from "
               "Stylesheet::addTemplate serve every node kind a last step can match, and KeyTable::KeyTable (facts "
               "regenerated from KeyTable.cpp) offers every node and attribute to every key pattern "
-              "(target_data_complete, keytable_visits_complete). For the code as found the statement was false: five *_counterexample theorems, the "
+              "(target_data_complete, keytable_visits_complete); absolute patterns match relative to whatever root the "
+              "node's tree has, document or document fragment (absolute_patterns_any_root, root node types regenerated "
+              "from the source; document() loads, result tree fragments and nested fragments observed through "
+              "stylesheets, Xerces-wrapped sources through the API harness). For the code as found the statement was false: five *_counterexample theorems, the "
               "classes where it held anyway (match_iff_select_partial, match_implies_select_partial), and "
               "repaired_witnesses / backtracking_witnesses. The transcription is tied to the working tree by comparing, for "
               "every generated (pattern, document): step and predicate op codes, the score of every node from both entry "
@@ -57,7 +60,7 @@ LEVEL_NOTE = ("Trusted: Lean kernel; axioms propext/Classical.choice/Quot.sound 
               "outside the theorem: predicate bodies other than the listed shapes (general XPath inside [...]), key() as a "
               "leading step at API level (its matcher code is the id() code, covered; key()-led patterns, template match, "
               "xsl:key match, xsl:number count/from are observed through stylesheets only), unions with an id()/key() "
-              "alternative, namespace nodes, whitespace stripping, result tree fragments, the Xerces-wrapper DOM. Modelled, "
+              "alternative, namespace nodes, whitespace stripping. Modelled, "
               "not verified: tokenizer/parser beyond the compared op-code assignment, key-table lookup, DOM navigation.")
 DESIGN_REF = "DESIGN.md section 5, C09; design/C09.md"
 
@@ -85,6 +88,7 @@ THEOREMS = [
     "XalanModel.Props.C09.target_data_complete",
     "XalanModel.Props.C09.keytable_visits_complete",
     "XalanModel.Props.C09.number_valued_predicate_is_positional",
+    "XalanModel.Props.C09.absolute_patterns_any_root",
 ]
 
 
@@ -680,52 +684,76 @@ CONSUMER_PATTERNS = [
     # of different node kinds, the root
     "@node()", "attribute::node()", "node()", "text()|@*", "comment()", "processing-instruction()", "*/@node()",
     "//attribute::node()", "@*", "*", "text()", "/", "*//node()", "comment()|processing-instruction()|@node()",
+    # absolute patterns: must match relative to whatever root the node's tree has (document or document fragment)
+    "/*", "/*/*", "/node()", "/*//@*", "/*/text()|/comment()",
 ]
+
+
+TREE_KINDS = [("M", "/", "main source document"),
+              ("D", "document('c09_cons2.xml')", "document() load"),
+              ("F", "exsl:node-set($rtf)", "result tree fragment (root = document fragment) via exsl:node-set"),
+              ("N", "xalan:nodeset($rtf2)", "fragment built from a fragment, via xalan:nodeset")]
 
 
 def consumer_stylesheet(pat, with_key, helper_key):
     """ONE xsl:key declaration (match=pat) and ONE template (match=pat) — nothing else that could mask a pre-filter
-    built from the patterns' target data.  Per node: <in key('k','1')><template fired><defining expression>."""
-    o = [XSL_HEAD]
+    built from the patterns' target data — applied to the nodes of every kind of tree the processor can hold (TREE_KINDS).
+    Per tree and node one line: <tree tag> <kind> <in key('k','1')><template fired><defining expression in the same
+    tree><xsl:number level=single count=pat finds a node>."""
+    e = xml_escape(pat)
+    o = [XSL_HEAD.replace('xmlns:p="nsP"', 'xmlns:exsl="http://exslt.org/common" xmlns:xalan="http://xml.apache.org/xalan" '
+                          'exclude-result-prefixes="exsl xalan" xmlns:p="nsP"')]
     if with_key:
-        o.append('<xsl:key name="k" match="%s" use="\'1\'"/>' % xml_escape(pat))
+        o.append('<xsl:key name="k" match="%s" use="\'1\'"/>' % e)
     if helper_key:
         o.append('<xsl:key name="kn" match="*" use="name()"/><xsl:key name="kx" match="*[@x]" use="1"/>')
-    body = ('<xsl:variable name="n" select="."/>'
-            '<xsl:choose><xsl:when test="not(..)">r</xsl:when><xsl:when test="self::*">e</xsl:when>'
-            '<xsl:when test="self::text()">t</xsl:when><xsl:when test="self::comment()">c</xsl:when>'
-            '<xsl:when test="self::processing-instruction()">p</xsl:when><xsl:otherwise>a</xsl:otherwise></xsl:choose>'
-            '<xsl:text> </xsl:text>'
-            + ('<xsl:value-of select="count(key(\'k\',\'1\')[generate-id()=generate-id(current())])"/>' if with_key
-               else '<xsl:text>-</xsl:text>') +
-            '<xsl:variable name="o"><xsl:apply-templates select="." mode="m"/></xsl:variable>'
-            '<xsl:value-of select="number(contains($o, concat(\'[\', generate-id(), \']\')))"/>'
-            '<xsl:value-of select="number(boolean(ancestor-or-self::node()[count((%s)|$n)=count(%s)]))"/>'
-            '<xsl:text>&#10;</xsl:text>') % (xml_escape(pat), xml_escape(pat))
-    o.append('<xsl:template match="/"><xsl:for-each select="/">%s</xsl:for-each>'
-             '<xsl:for-each select="//node() | //@*">%s</xsl:for-each></xsl:template>' % (body, body))
+    o.append('<xsl:variable name="rtf"><xsl:copy-of select="/node()"/></xsl:variable>'
+             '<xsl:variable name="rtf2"><xsl:copy-of select="exsl:node-set($rtf)/node()"/></xsl:variable>')
+    o.append('<xsl:template name="row"><xsl:param name="tag"/><xsl:variable name="n" select="."/>'
+             '<xsl:value-of select="$tag"/><xsl:text> </xsl:text>'
+             '<xsl:choose><xsl:when test="not(..)">r</xsl:when><xsl:when test="self::*">e</xsl:when>'
+             '<xsl:when test="self::text()">t</xsl:when><xsl:when test="self::comment()">c</xsl:when>'
+             '<xsl:when test="self::processing-instruction()">p</xsl:when><xsl:otherwise>a</xsl:otherwise></xsl:choose>'
+             '<xsl:text> </xsl:text>'
+             + ('<xsl:value-of select="count(key(\'k\',\'1\')[generate-id()=generate-id(current())])"/>' if with_key
+                else '<xsl:text>-</xsl:text>') +
+             '<xsl:variable name="o"><xsl:apply-templates select="." mode="m"/></xsl:variable>'
+             '<xsl:value-of select="number(contains($o, concat(\'[\', generate-id(), \']\')))"/>'
+             '<xsl:value-of select="number(boolean(ancestor-or-self::node()[count((%s)|$n)=count(%s)]))"/>'
+             '<xsl:variable name="c"><xsl:number level="single" count="%s"/></xsl:variable>'
+             '<xsl:value-of select="number(string-length($c) &gt; 0)"/>'
+             '<xsl:text>&#10;</xsl:text></xsl:template>' % (e, e, e))
+    o.append('<xsl:template name="tree"><xsl:param name="T"/><xsl:param name="tag"/>'
+             '<xsl:for-each select="$T"><xsl:call-template name="row"><xsl:with-param name="tag" select="$tag"/></xsl:call-template></xsl:for-each>'
+             '<xsl:for-each select="$T//node() | $T//@*"><xsl:call-template name="row"><xsl:with-param name="tag" select="$tag"/>'
+             '</xsl:call-template></xsl:for-each></xsl:template>')
+    o.append('<xsl:template match="/">' + "".join(
+        '<xsl:call-template name="tree"><xsl:with-param name="T" select="%s"/><xsl:with-param name="tag" select="\'%s\'"/>'
+        '</xsl:call-template>' % (sel, tag) for tag, sel, _ in TREE_KINDS) + '</xsl:template>')
     # the template prints the id of the node it fired for: a built-in rule recursing into children cannot fake it
-    o.append('<xsl:template match="%s" mode="m">[<xsl:value-of select="generate-id()"/>]</xsl:template>' % xml_escape(pat))
+    o.append('<xsl:template match="%s" mode="m">[<xsl:value-of select="generate-id()"/>]</xsl:template>' % e)
     o.append('</xsl:stylesheet>')
     return "".join(o)
 
 
 def consumer_phase(ctx, cases, work, ndocs):
     """Consumers of match patterns that may pre-filter candidate nodes by target data (XPath::getTargetData): the
-    xsl:key table (KeyTable::KeyTable) and template lookup (Stylesheet::addTemplate / locateMatchPatternDataList).
-    Each is run with the pattern as the ONLY declaration of its kind and compared, node by node, with the defining
-    expression evaluated in the same transformation."""
+    xsl:key table (KeyTable::KeyTable), template lookup (Stylesheet::addTemplate / locateMatchPatternDataList) and
+    xsl:number count.  Each is run with the pattern as the ONLY declaration of its kind, on the nodes of every kind of
+    tree (main source, document() load, result tree fragment, nested fragment), and compared, node by node, with the
+    defining expression evaluated in the same transformation and the same tree."""
     cli = os.path.join(common.build_dir("hooks"), "src", "xalanc", "Xalan")
     rr = Rng(ctx.seed * 2654435761 % (2 ** 31) + 11)
     jobs = []
     for doc, pats in cases[:ndocs]:
         own = [g.render_pattern(P) for P in pats[:3] if not g.render_pattern(P).startswith("/|")]
+        table = g.table_of(doc)
         for t in CONSUMER_PATTERNS + own:
-            jobs.append((g.xml_of(doc), len(g.table_of(doc)), t, True, False))
+            jobs.append((g.xml_of(doc), table, t, True, False))
         g.set_pool(doc)
         for t in gen_fn_patterns(rr, 2) + ["key('kn','%s')//@node()" % rr.choice(g.POOL["e"]),
                                            "key('kn','%s')/node()" % rr.choice(g.POOL["e"])]:
-            jobs.append((g.xml_of(doc), len(g.table_of(doc)), t, False, True))      # key() head: template consumer only
+            jobs.append((g.xml_of(doc), table, t, False, True))      # key() head: template consumer only
         g.set_pool(None)
     for _ in range(max(4, ndocs // 4)):
         doc = g.gen_doc(rr, rr.range(4, 18), ns=False)
@@ -735,39 +763,131 @@ def consumer_phase(ctx, cases, work, ndocs):
         v = sorted(ids)
         for t in ["id('%s')" % v[0], "id('%s')//@node()" % " ".join(v[:2]), "id('%s')/node()" % v[0],
                   "id('%s')//text()" % v[-1]]:
-            jobs.append((g.xml_with_dtd(doc), len(g.table_of(doc)), t, True, False))
+            jobs.append((g.xml_with_dtd(doc), g.table_of(doc), t, True, False))
     nchk = nmatch = 0
+    per_tree = {}
     bad = []
-    for xml, nn, t, with_key, helper in jobs:
+    for xml, table, t, with_key, helper in jobs:
+        nn = len(table)
+        parents = [int(x.split(":")[-1]) if x != "r" else -1 for x in table]
         xmlf = os.path.join(work, "c09_cons.xml")
         xslf = os.path.join(work, "c09_cons.xsl")
-        with open(xmlf, "w") as f:
-            f.write(xml)
+        for fn in (xmlf, os.path.join(work, "c09_cons2.xml")):
+            with open(fn, "w") as f:
+                f.write(xml)
         with open(xslf, "w") as f:
             f.write(consumer_stylesheet(t, with_key, helper))
         rc, out = common.sh([cli, xmlf, xslf], timeout=120)
         lines = [l for l in out.split("\n") if l]
-        if rc != 0 or len(lines) != nn or any(len(l) != 5 or l[1] != " " for l in lines):
+        ok = rc == 0 and len(lines) == nn * len(TREE_KINDS) and all(len(l) == 8 and l[1] == " " and l[3] == " " for l in lines)
+        if not ok:
             bad.append(dict(site="consumer cli", pattern=t, doc=xml, what="unexpected CLI output rc=%d: %s" % (rc, out[-300:])))
             continue
-        for i, l in enumerate(lines):
-            kbit, tbit, dbit = l[2], l[3], l[4]
-            nchk += 1
-            nmatch += dbit == "1"
-            if with_key and kbit != dbit:
-                bad.append(dict(site="consumer xsl:key %s" % ("missed" if dbit == "1" else "spurious"), pattern=t, doc=xml, node=i,
-                                what="node %d (%s): in key('k','1') = %s, the defining expression selects = %s (stylesheet with "
-                                     "this single xsl:key declaration)" % (i, l[0], kbit, dbit)))
-                break
-            if tbit != dbit:
-                bad.append(dict(site="consumer template %s" % ("missed" if dbit == "1" else "spurious"), pattern=t, doc=xml, node=i,
-                                what="node %d (%s): template fired = %s, the defining expression selects = %s (stylesheet with "
-                                     "this single template)" % (i, l[0], tbit, dbit)))
-                break
-    ctx.extra["consumers"] = dict(stylesheets=len(jobs), node_checks=nchk, nodes_selected=nmatch, violations=len(bad))
+        for ti, (tag, _sel, tname) in enumerate(TREE_KINDS):
+            blk = lines[ti * nn:(ti + 1) * nn]
+            if any(l[0] != tag for l in blk) or any(l[2] != x[0] for l, x in zip(blk, table)):
+                bad.append(dict(site="consumer cli", pattern=t, doc=xml, what="tree %s: node kinds differ from the source: %s" % (tag, blk[:6])))
+                continue
+            failed = False
+            for i, l in enumerate(blk):
+                kbit, tbit, dbit, nbit = l[4], l[5], l[6], l[7]
+                nchk += 1
+                per_tree[tag] = per_tree.get(tag, 0) + 1
+                nmatch += dbit == "1"
+                # xsl:number level=single count=P: the node or an ancestor is selected by P
+                x, up = i, False
+                while True:
+                    up = up or blk[x][6] == "1"
+                    if x == 0:
+                        break
+                    x = parents[x]
+                for site, bit, exp in (("xsl:key", kbit, dbit), ("template", tbit, dbit), ("xsl:number count", nbit, "1" if up else "0")):
+                    if site == "xsl:key" and not with_key:
+                        continue
+                    if bit != exp:
+                        bad.append(dict(site="consumer %s %s [%s]" % (site, "missed" if exp == "1" else "spurious", tname.split(" (")[0].split(",")[0]),
+                                        pattern=t, doc=xml, node=i,
+                                        what="tree kind %s, node %d (%s): %s says %s, the defining expression evaluated in the "
+                                             "same tree gives %s (single declaration of the pattern)" % (tname, i, l[2], site, bit, exp)))
+                        failed = True
+                        break
+                if failed:
+                    break
+    ctx.extra["consumers"] = dict(stylesheets=len(jobs), node_checks=nchk, per_tree_kind=per_tree, nodes_selected=nmatch,
+                                  violations=len(bad), tree_kinds={t: n for t, _, n in TREE_KINDS})
     for b in bad[:20]:
         ctx.fail("%s: %s" % (b["site"], b["pattern"]), "%s on %s: %s" % (b["site"], b["doc"], b["what"]),
                  dict(pattern=b["pattern"], doc=b["doc"], consumer=b["site"]))
+
+
+def xerces_stream(ctx, harness, cases, work, limit):
+    """Tree kind "Xerces-wrapped source": the same documents parsed into a Xerces DOM behind XercesDocumentWrapper
+    (harness request `xdoc`).  Implementation only: node table, op codes, scores from both entry points, caller-list
+    independence and the defining side must equal those obtained on the XalanSourceTree document; the property is
+    evaluated on the wrapped document too."""
+    import subprocess
+    sub = cases[:limit]
+    req = os.path.join(work, "c09_xerces.req")
+    lines, owner = make_request(sub, req)
+    out1 = subprocess.run([harness], stdin=open(req, "rb"), stdout=subprocess.PIPE, stderr=subprocess.PIPE, timeout=1800
+                          ).stdout.decode("utf-8", "replace").split("\n")
+    with open(req, "w") as f:
+        f.write("\n".join(("x" + l if l.startswith("doc ") else l) for l in lines) + "\n")
+    p2 = subprocess.run([harness], stdin=open(req, "rb"), stdout=subprocess.PIPE, stderr=subprocess.PIPE, timeout=1800)
+    out2 = p2.stdout.decode("utf-8", "replace").split("\n")
+    def canon(docline):
+        """document-order indices in a canonical order: attributes of an element sorted by expanded name (their relative
+        order is implementation-dependent: XalanSourceTree keeps the source order, the Xerces DOM does not)"""
+        toks = docline.split(" ")[2:]
+        par = [int(t.split(":")[-1]) if t != "r" else -1 for t in toks]
+        order = []
+
+        def go(i):
+            order.append(i)
+            for a in sorted((j for j in range(len(toks)) if par[j] == i and toks[j][0] == "a"), key=lambda j: toks[j]):
+                order.append(a)
+            for c in (j for j in range(len(toks)) if par[j] == i and j != 0 and toks[j][0] != "a"):
+                go(c)
+        go(0)
+        return order, [toks[i].rsplit(":", 1)[0] for i in order]
+
+    def reorder(rep, order):
+        pick = lambda st: "".join(st[i] for i in order)   # noqa: E731
+        return (rep["codes"], pick(rep["m"]), pick(rep["s"]), pick(rep["amb"]), [pick(a) for a in rep["alts"]])
+
+    n = ndiff = nskip = 0
+    cur = {}
+    for li, (ci, pi) in enumerate(owner):
+        if ci < 0:
+            continue
+        a = out1[li] if li < len(out1) else None
+        b = out2[li] if li < len(out2) else None
+        n += 1
+        doc, pats = sub[ci]
+        same = a == b
+        if pi is None and a and b and a.startswith("doc ") and b.startswith("doc ") and "ERR" not in a + b:
+            oa, ka = canon(a)
+            ob, kb = canon(b)
+            cur[ci] = (oa, ob)
+            same = ka == kb
+        elif pi is not None and ci in cur:
+            if any(st["attr"] and any(k not in ("a", "c", "na") for k, _ in st["preds"]) for p in pats[pi] for _, st in p["steps"]):
+                nskip += 1      # a positional predicate on an attribute step depends on the attribute order
+                continue
+            ra, rb = parse_reply(a), parse_reply(b)
+            same = ra is not None and rb is not None and reorder(ra, cur[ci][0]) == reorder(rb, cur[ci][1])
+        if not same:
+            ndiff += 1
+            if ndiff <= 5:
+                ctx.fail("xerces-wrapper differs: %s" % (g.render_pattern(pats[pi]) if pi is not None else "document table"),
+                         "Xerces-wrapped document %s: %s  vs XalanSourceTree: %s" % (g.xml_of(doc), (b or "")[:300], (a or "")[:300]),
+                         dict(pattern=g.render_pattern(pats[pi]) if pi is not None else None, doc=g.xml_of(doc),
+                              request=[("x" + lines[k]) for k in range(li, 0, -1) if lines[k].startswith("doc ")][:1] +
+                                      ([lines[li]] if pi is not None else [])))
+    ctx.extra["xerces_wrapped_sources"] = dict(lines_compared=n, differing=ndiff, harness_rc=p2.returncode,
+                                               skipped_attribute_order_dependent=nskip)
+    ctx.oblige("tree kind Xerces-wrapped source: same node tables (attributes of an element compared as a set), op codes, "
+               "scores and defining side as on the XalanSourceTree document", "correspondence", ndiff == 0 and p2.returncode == 0, "differing=%d" % ndiff)
 
 
 def spaced(text, r):
@@ -839,6 +959,7 @@ def run(ctx):
     ctx.translate("c10_priority")
     ctx.translate("c09_keytable")
     ctx.translate("c09_steppredicate")
+    ctx.translate("c09_fromroot")
     ctx.lean("XalanModel.Props.C09", THEOREMS, extra_targets=["xm_c09"])
     model = ctx.exe("xm_c09")
     harness = common.build_harness("c09_patterns", ["c09_patterns.cpp"], flavor="hooks")
@@ -893,7 +1014,8 @@ def run(ctx):
                not ctx.extra.get("violations_inside_proved_class"),
                json.dumps(ctx.extra.get("violations_inside_proved_class", [])[:3]))
     use_sites(ctx, cases, REPLIES.get("main", {}), work, 150 if not ctx.thorough else 1500)
-    consumer_phase(ctx, cases, work, 24 if not ctx.thorough else 400)
+    consumer_phase(ctx, cases, work, 20 if not ctx.thorough else 300)
+    xerces_stream(ctx, harness, cases, work, 400 if not ctx.thorough else 6000)
     whitespace_stream(ctx, harness, cases, work, 120 if not ctx.thorough else 1500)
     if VARIANT[3]:
         idkey_stream(ctx, harness, model, work, 300 if not ctx.thorough else 6000, 8)
@@ -925,9 +1047,13 @@ def replay(ctx, path):
         cli = os.path.join(common.build_dir("hooks"), "src", "xalanc", "Xalan")
         rc, out = common.sh([cli, xmlf, xslf], timeout=120)
         print("pattern:", inp["pattern"], " document:", inp["doc"])
-        print("per node: kind <in key('k','1')><template fired><defining expression selects>")
+        print("per tree kind (M main, D document(), F fragment, N nested fragment) and node: tag kind "
+              "<in key('k','1')><template fired><defining expression><xsl:number count finds a node>")
+        with open(os.path.join(work, "c09_cons2.xml"), "w") as f:
+            f.write(inp["doc"])
+        rc, out = common.sh([cli, xmlf, xslf], timeout=120)
         print(out)
-        badl = [l for l in out.split("\n") if l and not (l[2] in ("-", l[4]) and l[3] == l[4])]
+        badl = [l for l in out.split("\n") if l and len(l) == 8 and not (l[4] in ("-", l[6]) and l[5] == l[6])]
         print("consumers agree with the definition:", "yes" if rc == 0 and not badl else "NO at %s" % badl)
         return 0 if rc == 0 and not badl else 1
     if "request" not in inp:
